@@ -32,6 +32,7 @@ def sched_jobs(tier, seed, gen=None, selections=False, faults=False, fault_rate=
     gen.setdefault("tag_rate", 0.25)  # decorator-level tags (shared / spelled like another node's id) + configuration by tag
     gen.setdefault("debug_rate", 0.1)  # debug sinks, run with RUN_DEBUG_NODES on (whole-DAG calls)
     gen.setdefault("nest_rate", 0.15)  # a block of call sites written as an inner DAG (prefixed ids), same clauses
+    gen.setdefault("twin_rate", 0.12)  # two different decorated functions carrying one qualified name (own options each)
     jobs = []
     if tier == "quick":
         n_ctl, cases, n_dfs, dfs_shapes, dfs_limit, n_stress = 6, int(250 * scale), 4, 10, 200, 2
